@@ -1,3 +1,88 @@
-From MW Require Import Num.
-Theorem placeholder : True. Proof. exact I. Qed.
-Print Assumptions placeholder.
+(* C01 — Context-free policies compute the documented statistic of each arm's history.
+
+   For EVERY history of fit / partial_fit / add_arm / remove_arm (given most recent call first), every
+   arm set and label type, every number structure (so also for IEEE binary64, where the order of the
+   additions is part of the statement), the state reached by the model equals the specification that
+   scans the history backwards: the batches of rewards of the arm since the most recent fit or since the
+   arm was (re-)added.  The specification has another shape than the model (backward scan per arm versus
+   forward fold over calls and over arms).
+
+   Proved for EpsilonGreedy (sum, count, mean), UCB1 (sum, count, mean, N, bound) and Thompson Sampling
+   without binarizer (Beta parameters), for all histories; the Softmax formula is proved for the
+   recomputation step that every call ends with.  ..._partial: Popularity's normalisation and the request
+   pattern of the random draws are covered by the correspondence run only (binarizers: see C14). *)
+From Coq Require Import List ZArith Bool QArith Qcanon.
+From MW Require Import Num Assoc Rng CF CFInv CFSpec QcInst.
+Import ListNotations.
+
+Theorem C01_epsilon_greedy_running_mean :
+  forall (R A : Type) (N : Num R) (aeqb : A -> A -> bool),
+  (forall x y : A, aeqb x y = true <-> x = y) ->
+  forall (s0 : cf) (rops : list cfop),
+  c_kind s0 = KGreedy -> keys_ok s0 ->
+  (forall a : A, In a (c_arms s0) -> greedy_arm_ok N aeqb s0 [] a) ->
+  valid_rev N aeqb s0 rops ->
+  let s := cf_run_rev N aeqb s0 rops in
+  keys_ok s /\ c_kind s = KGreedy /\
+  (forall a : A, In a (c_arms s) -> greedy_arm_ok N aeqb s (batches_rev aeqb rops a) a).
+Proof. exact @greedy_stat. Qed.
+Print Assumptions C01_epsilon_greedy_running_mean.
+
+Theorem C01_ucb1_bound :
+  forall (R A : Type) (N : Num R) (aeqb : A -> A -> bool),
+  (forall x y : A, aeqb x y = true <-> x = y) ->
+  forall (s0 : cf) (rops : list cfop),
+  c_kind s0 = KUcb -> keys_ok s0 ->
+  (forall a : A, In a (c_arms s0) -> ucb_arm_ok N aeqb s0 [] a) ->
+  valid_rev N aeqb s0 rops ->
+  let s := cf_run_rev N aeqb s0 rops in
+  keys_ok s /\ c_kind s = KUcb /\ c_hp s = c_hp s0 /\ c_total s = spec_total (c_total s0) rops /\
+  (forall a : A, In a (c_arms s) -> ucb_arm_ok N aeqb s (batches_rev aeqb rops a) a).
+Proof. exact @ucb_stat. Qed.
+Print Assumptions C01_ucb1_bound.
+
+Theorem C01_thompson_beta_parameters :
+  forall (R A : Type) (N : Num R) (aeqb : A -> A -> bool),
+  (forall x y : A, aeqb x y = true <-> x = y) ->
+  forall (s0 : cf) (rops : list cfop),
+  c_kind s0 = KThompson -> c_binz s0 = None -> keys_ok s0 ->
+  (forall a : A, In a (c_arms s0) -> ts_arm_ok N aeqb s0 [] a) ->
+  valid_rev N aeqb s0 rops -> no_binz rops ->
+  let s := cf_run_rev N aeqb s0 rops in
+  keys_ok s /\ c_kind s = KThompson /\ c_binz s = None /\
+  (forall a : A, In a (c_arms s) -> ts_arm_ok N aeqb s (batches_rev aeqb rops a) a).
+Proof. exact @thompson_params. Qed.
+Print Assumptions C01_thompson_beta_parameters.
+
+Theorem C01_softmax_is_max_shifted_softmax_of_means_partial :
+  forall (R A : Type) (N : Num R) (aeqb : A -> A -> bool),
+  (forall x y : A, aeqb x y = true <-> x = y) ->
+  forall (s : cf) (a : A), In a (akeys (c_exp s)) ->
+  let s' := softmax_expectation N aeqb s in
+  let maxm := pymax N (map (fun kv : A * armst => s_mean (snd kv)) (c_stats s)) in
+  let e := fun st : armst => exp N (div N (sub N (s_mean st) maxm) (c_hp s)) in
+  aget aeqb (c_exp s') a =
+    Some (div N (e (aget_d aeqb (armst0 N) (c_stats s) a)) (psum N (map (fun kv : A * armst => e (snd kv)) (c_stats s)))) \/
+  aget aeqb (c_stats s) a = None.
+Proof. exact @softmax_expectation_formula. Qed.
+Print Assumptions C01_softmax_is_max_shifted_softmax_of_means_partial.
+
+(* non-vacuity: a UCB1 policy over the rationals; arm 2 is observed, removed, re-added and observed again.
+   The hypotheses hold for the constructed state and the specification evaluates to the expected numbers:
+   after the re-add only the last batch [5] counts for arm 2, N counts every row since the fit. *)
+Definition q (z : Z) : Qc := Q2Qc (inject_Z z).
+Definition ex_s0 : @cf Qc Z := cf_init QcNum KUcb 1%Qc None [1; 2]%Z.
+Definition ex_rops : list (@cfop Qc Z) :=
+  [OPartial [2; 1]%Z [q 5; q 1]; OAdd 2%Z None; ORemove 2%Z; OFit [1; 2; 2]%Z [q 1; q 3; q 4]].
+Example C01_hypotheses_satisfiable :
+  keys_ok ex_s0 /\ (forall a, In a (c_arms ex_s0) -> ucb_arm_ok QcNum Z.eqb ex_s0 [] a) /\
+  valid_rev QcNum Z.eqb ex_s0 ex_rops /\
+  batches_rev Z.eqb ex_rops 2%Z = [[q 5]] /\ spec_total 0 ex_rops = 5%Z /\
+  spec_mean QcNum (batches_rev Z.eqb ex_rops 1%Z) = 1%Qc.
+Proof.
+  split; [apply keys_ok_init; repeat constructor; simpl; intuition discriminate|].
+  split.
+  - intros a [<-|[<-|[]]]; eexists; repeat split; reflexivity.
+  - split; [simpl; intuition discriminate|]. split; [reflexivity|]. split; [reflexivity|].
+    apply Qc_is_canon. reflexivity.
+Qed.
